@@ -171,6 +171,13 @@ def run(tier: str, only=None) -> int:
     P = {"transport": "popen", "backend": "thread", "channels": [ch(up=1, down=2)], "size": 3, "short_reads": True}
     if not only or "chunk" in only:
         harness.run_exploration(rep, PID, "prog/chunking:popen", ChanProg, P, {"ps": 1, "env": 1, "free": 0} if tier == "quick" else {"ps": 1, "env": 3, "free": 1}, max_execs=cap)
+    # the cyclic collector finalizing another channel of the gateway in the middle of a send (small and
+    # large items: a frame must stay whole whatever lands between its parts)
+    for tr in ("popen", "socket", "via"):
+        for size in (3, 70000):
+            P = {"transport": tr, "backend": "thread", "channels": [ch(up=2, down=1)], "size": size, "gc": True}
+            if not only or "gc" in only:
+                harness.run_exploration(rep, PID, f"prog/gc:{tr}:{size}", ChanProg, P, {"ps": 0, "env": 1, "free": 0} if tier == "quick" else {"ps": 1, "env": 1, "free": 0}, max_execs=cap)
     for tr in ("socket", "via"):
         P = {"transport": tr, "backend": "thread", "channels": [ch(up=1, down=2)], "size": 3, "short_reads": True, "sendall_splits": tr == "socket"}
         if not only or "chunk" in only:
